@@ -274,21 +274,22 @@ def make_oracle(fs, stats=None):
             _, cid, ln, data, acc = e
             pri, pgn, src, dst = decode_id(cid)
             fr = (cid, ln, tuple(data))
+            here = [cur] + ([alt] if alt is not None else [])       # the states in which this call can have been made
             if head is not None:
                 if head[0] != fr:
                     soft.append('fifo:op %d frame %x overtakes the queue head %x' % (k, cid, head[0][0]))
-                    cands = [cur]
+                    cands = here
                 else:
                     cands = head[1]
                 if acc:
                     head = None
                 else:
-                    gaps.append(cur)
+                    gaps = gaps + here
             else:
-                cands = gaps + [cur]
+                cands = gaps + here
                 if not acc and cap >= 1:
                     head = (fr, cands)
-                    gaps = gaps + [cur]
+                    gaps = gaps + here
             ok, owner, _f = entitled(cur, pgn, src)
             if not ok and alt is not None:
                 ok, owner2, _f = entitled(alt, pgn, src)
@@ -296,7 +297,7 @@ def make_oracle(fs, stats=None):
                 return
             # not entitled now: was it entitled when it was (possibly) produced?
             for c in cands:
-                if c is cur:
+                if c is cur or c is alt:
                     continue
                 okc, own, fwdd = entitled(c, pgn, src)
                 if okc:
@@ -601,7 +602,7 @@ def gen_cold(r, cases, thorough):
 def gen_windows(r, cases, thorough):
     """a claim start followed by stimuli at chosen offsets inside and just after the 250 ms window"""
     offs = [0, 1, 50, 100, 249, 250, 251, 252, 300]
-    for rep in range(330 if not thorough else 6000):
+    for rep in range(400 if not thorough else 6000):
         mode = r.choice([1, 1, 1, 2, 2, 3, 4, 0])
         ndev = r.choice([1, 2, 2, 3])
         src = r.choice([0, 22, 30, 100, 252 - ndev])
